@@ -12,6 +12,7 @@ func VerifObserve(tag string, vals ...any) { vObserve(tag, vals...) }
 func VerifEqBytes(a, b []byte) bool        { return vEqBytes(a, b) }
 func VerifAnd(a, b bool) bool              { return vAnd(a, b) }
 func VerifReset(vals map[string][]uint64)  { vReset(vals) }
+func VerifResetStrs(s map[string][]string) { vResetStrs(s) }
 func VerifSetParams(p map[string]int)      { vParams = p }
 func VerifFailures() []string              { return vFailures }
 func VerifReached() map[string]bool        { return vReachedIDs }
